@@ -2,6 +2,7 @@
 from __future__ import annotations
 
 import ast
+import re
 from typing import Dict, List
 
 from sa.effects import Effects
@@ -226,11 +227,76 @@ def rule_pooling(ctx: Ctx) -> None:
                       f"the ground-truth total is updated by {augs} / stores {len(st)}; it must only ever add the sum of the per-label counts", fi=fm)
 
 
+def rule_score_container(ctx: Ctx) -> None:
+    """MetricsScore: one score object per configured (matching mode, threshold), built from the given per-label results and counts and kept in the
+    container; the ground-truth total is added exactly once per evaluated frame / scene (not twice when tracking scores the same ground truth)."""
+    MODES = {"center_distance_thresholds": ("CENTERDISTANCE", None), "iou_2d_thresholds": ("IOU2D", None), "iou_3d_thresholds": ("IOU3D", True), "plane_distance_thresholds": ("PLANEDISTANCE", True)}
+    for name, cfg, ctor, cont in (("evaluate_detection", "self.detection_config", "Map", "self.maps"), ("evaluate_tracking", "self.tracking_config", "TrackingMetricsScore", "self.tracking_scores")):
+        fm = ctx.func("evaluation.metrics.metrics.MetricsScore." + name)
+        paths = enum_paths(ctx, fm)
+        seen_modes = set()
+        for p in paths:
+            f = {S(k): v for k, v in p.facts.items()}
+            is3d = f.get("call:self.evaluation_task.is_3d()")
+            ctx.require(is3d is not None, f"MetricsScore.{name}: no dispatch on evaluation_task.is_3d()")
+            lps = [e for e in p.effects if e.kind == "loop"]
+            got = {}
+            for e in lps:
+                m = re.match(rf"^{re.escape(cfg)}\.(\w+)$", S(e.text))
+                ctx.require(m is not None, f"MetricsScore.{name}: loop over `{S(e.text)}` not recognised")
+                got[m.group(1)] = e
+            want = {k for k, (mode, need3d) in MODES.items() if not need3d or is3d}
+            ctx.check(set(got) == want, "C13-scores", f"MetricsScore.{name}", f"modes:3d={int(bool(is3d))}",
+                      f"for a {'3D' if is3d else '2D'} task scores are computed for {sorted(got)}; expected {sorted(want)} (every configured threshold list of the task's matching modes)", fi=fm,
+                      expected=str(sorted(want)), found=str(sorted(got)))
+            for key, e in got.items():
+                var = U(e.node.target)
+                mode = MODES[key][0]
+                seen_modes.add(mode)
+                for bp in e.body:
+                    ap = [a for a in appends(bp) if S(a.recv) == cont]
+                    okb = len(ap) == 1 and not bp.conds and bp.exit == ("fall",) and isinstance(ap[0].args[0], ast.Call) and S(ap[0].args[0].func) == ctor
+                    ctx.check(okb, "C13-scores", f"MetricsScore.{name}", f"kept:{mode}", f"the {ctor} of a {mode} threshold is not appended to {cont} exactly once, unconditionally", fi=fm)
+                    if not okb:
+                        continue
+                    kw = {k.arg: S(k.value) for k in ap[0].args[0].keywords}
+                    wantkw = {"object_results_dict": "object_results", "num_ground_truth_dict": "num_ground_truth", "target_labels": f"{cfg}.target_labels",
+                              "matching_mode": f"MatchingMode.{mode}", "matching_threshold_list": var}
+                    for k2, w in wantkw.items():
+                        ctx.check(kw.get(k2) == w, "C13-scores", f"MetricsScore.{name}", f"{mode}:{k2}", f"{ctor}({k2}=`{kw.get(k2)}`) for the {mode} thresholds; expected `{w}`", fi=fm, expected=w, found=str(kw.get(k2)))
+                    if ctor == "Map":
+                        d2 = kw.get("is_detection_2d")
+                        ctx.check(d2 in ("self.evaluation_task.is_2d()", "notself.evaluation_task.is_3d()") if not MODES[key][1] else d2 in (None, "False", "self.evaluation_task.is_2d()"), "C13-scores", f"MetricsScore.{name}",
+                                  f"{mode}:is_detection_2d", f"Map(is_detection_2d={d2}) for {mode}; APH exists for 3D tasks only", fi=fm)
+            # ground-truth total
+            augs = [(S(strip_v(e.recv)), e.name, S(e.value)) for e in p.effects if e.kind == "aug" and "num_gt" in S(e.recv)]
+            if name == "evaluate_detection":
+                trk_none = f.get("none:self.tracking_config")
+                ctx.require(trk_none is not None, "MetricsScore.evaluate_detection: the tracking_config test that prevents double counting of ground truth was not recognised")
+                ctx.check((len(augs) == 1) == bool(trk_none), "C13-scores", "MetricsScore.evaluate_detection", f"gt-total:tracking_none={int(bool(trk_none))}",
+                          f"with tracking {'off' if trk_none else 'on'} the ground-truth total is added {len(augs)}x by the detection pass; it must be added once iff no tracking pass will add it", fi=fm)
+            else:
+                ctx.check(len(augs) == 1, "C13-scores", f"MetricsScore.{name}", "gt-total", f"the ground-truth total is added {len(augs)}x; expected once", fi=fm)
+        ctx.require(seen_modes == {"CENTERDISTANCE", "IOU2D", "IOU3D", "PLANEDISTANCE"}, f"MetricsScore.{name}: modes {sorted(seen_modes)}")
+    fc = ctx.func("evaluation.metrics.metrics.MetricsScore.evaluate_classification")
+    for p in enum_paths(ctx, fc):
+        ap = [a for a in appends(p) if S(a.recv) == "self.classification_scores"]
+        v = ap[0].args[0] if len(ap) == 1 else None
+        kw = {k.arg: S(k.value) for k in v.keywords} if isinstance(v, ast.Call) else {}
+        ok = isinstance(v, ast.Call) and S(v.func) == "ClassificationMetricsScore" and kw == {"object_results_dict": "object_results", "num_ground_truth_dict": "num_ground_truth", "target_labels": "self.classification_config.target_labels"}
+        ctx.check(ok, "C13-scores", "MetricsScore.evaluate_classification", "kept", f"the classification score is built / kept as {S(v)[:120] if v is not None else [S(a.args[0])[:40] for a in ap]}", fi=fc)
+        augs = [e for e in p.effects if e.kind == "aug" and "num_gt" in S(e.recv)]
+        ctx.check(len(augs) == 1, "C13-scores", "MetricsScore.evaluate_classification", "gt-total", f"the ground-truth total is added {len(augs)}x; expected once", fi=fc)
+
+
 def run(ctx: Ctx) -> None:
     from rules import generic as _G
     ctx.run(_G.rule_arity, ("perception_eval.manager",), "R-ARITY", 20)
     ctx.run(rule_ownership)
     ctx.run(rule_history)
     ctx.run(rule_pooling)
+    ctx.run(rule_score_container)
+    from rules import C10
+    ctx.run(C10.rule_manager)
     from rules import C04
     ctx.run(C04.rule_ranking)  # the pooled (nested, per-frame) results are flattened and ranked ONCE as a whole: the scene score cannot depend on frame order
